@@ -20,7 +20,14 @@ structure MapSt where
 inductive MapOp
   | insert (isNew : Bool)      -- m[k] = v  (find_for_insert); `isNew`: the key is not in the mapping
   | absorb (newKeys : Nat)     -- m += m2 inside catch; `newKeys` keys of m2 are not in m
+  | compose (kept : Nat)       -- m *= m2 (compose_mapping in place); `kept` nodes of m have a value that is a key of m2
   deriving Repr, DecidableEq
+
+/-- compose_mapping: the nodes whose value is not a key of m2 are unlinked one by one and counted in the local
+    `deleted` (`bits` wide: `unsigned int` after fix 5334d17, `unsigned short` before), then `m1->count -= deleted` -/
+def composeStep (bits : Nat) (s : MapSt) (kept : Nat) : MapSt :=
+  let deleted := s.nodes - min kept s.nodes
+  { count := s.count - deleted % 2 ^ bits, nodes := s.nodes - deleted }
 
 /-- the loop of add_to_mapping over the keys of m2 that are new: `local` is the C variable `count` -/
 def absorbLoop (limit : Int) (s : MapSt) (loc : Nat) : Nat → Bool × MapSt
@@ -43,6 +50,7 @@ def mapStep (limit : Int) (s : MapSt) : MapOp → Bool × MapSt
     if ((s.count + 1 : Nat) : Int) > limit then (true, s)
     else (false, { count := s.count + 1, nodes := s.nodes + 1 })
   | .absorb k => absorbLoop limit s s.count k
+  | .compose kept => (false, composeStep NV.Gen.C04.composeDeletedBits s kept)
 
 /-- run a sequence on the empty mapping; returns the error flags (oldest first) and the final state -/
 def mapRun (limit : Int) : List MapOp → MapSt → List Bool × MapSt
@@ -81,7 +89,24 @@ theorem absorbLoop_ok (limit : Int) (s : MapSt) (loc k : Nat) (h1 : loc = s.node
         omega
       · omega
 
-theorem mapStep_ok (limit : Int) (s : MapSt) (op : MapOp) (h : MapOk limit s) : MapOk limit (mapStep limit s op).2 := by
+theorem composeStep_ok (limit : Int) (s : MapSt) (kept : Nat) (h : MapOk limit s)
+    (hw : limit < 2 ^ NV.Gen.C04.composeDeletedBits) :
+    MapOk limit (composeStep NV.Gen.C04.composeDeletedBits s kept) := by
+  obtain ⟨h1, h2⟩ := h
+  have hb : ((2 : Int) ^ NV.Gen.C04.composeDeletedBits) = ((2 ^ NV.Gen.C04.composeDeletedBits : Nat) : Int) := by
+    simp
+  have hlt : s.nodes - min kept s.nodes < 2 ^ NV.Gen.C04.composeDeletedBits := by
+    have : (s.nodes : Int) < ((2 ^ NV.Gen.C04.composeDeletedBits : Nat) : Int) := by rw [← hb]; omega
+    omega
+  refine ⟨?_, ?_⟩
+  · show s.count - (s.nodes - min kept s.nodes) % 2 ^ NV.Gen.C04.composeDeletedBits = s.nodes - (s.nodes - min kept s.nodes)
+    rw [Nat.mod_eq_of_lt hlt, h1]
+  · show ((s.nodes - (s.nodes - min kept s.nodes) : Nat) : Int) ≤ limit
+    omega
+
+theorem mapStep_ok (limit : Int) (s : MapSt) (op : MapOp) (h : MapOk limit s)
+    (hw : limit < 2 ^ NV.Gen.C04.composeDeletedBits) : MapOk limit (mapStep limit s op).2 := by
+  have hfull := h
   obtain ⟨h1, h2⟩ := h
   cases op with
   | insert isNew =>
@@ -100,12 +125,14 @@ theorem mapStep_ok (limit : Int) (s : MapSt) (op : MapOp) (h : MapOk limit s) : 
   | absorb k =>
     show MapOk limit (absorbLoop limit s s.count k).2
     exact absorbLoop_ok limit s s.count k h1 (Nat.le_refl _) (by omega)
+  | compose kept => exact composeStep_ok limit s kept hfull hw
 
-theorem mapRun_ok (limit : Int) (ops : List MapOp) (s : MapSt) (h : MapOk limit s) : MapOk limit (mapRun limit ops s).2 := by
+theorem mapRun_ok (limit : Int) (ops : List MapOp) (s : MapSt) (h : MapOk limit s)
+    (hw : limit < 2 ^ NV.Gen.C04.composeDeletedBits) : MapOk limit (mapRun limit ops s).2 := by
   induction ops generalizing s with
   | nil => exact h
   | cons op rest ih =>
     unfold mapRun
-    exact ih _ (mapStep_ok limit s op h)
+    exact ih _ (mapStep_ok limit s op h hw)
 
 end NV.C04
